@@ -665,7 +665,10 @@ fn add_point_with_event_variation(db: &mut Database, ty: usize, var: u8) {
 /// mode 1: first a READ that names *another* variation of the same group is answered and never
 /// confirmed; the class poll that follows must again offer the event as recorded, in the
 /// configured variation.
-pub struct EventVariations;
+pub struct EventVariations {
+    /// clause prefix: C03, and C10 which runs the same product (the value that arrives is the value recorded)
+    pub id: &'static str,
+}
 
 impl CaseSpace for EventVariations {
     fn name(&self) -> String {
@@ -690,7 +693,7 @@ impl CaseSpace for EventVariations {
         let info = sim.db(|db| update_v(db, ty, 0, N, 1, false));
         let key = format!("g{group}v{var}{}", if detour { ":after-unconfirmed-read-of-another-variation" } else { "" });
         let UpdateInfo::Created(id) = info else {
-            res.violation = Some(Violation::new("C03.V0", key, format!("update reported {info:?}")));
+            res.violation = Some(Violation::new(&format!("{}.V0", self.id), key, format!("update reported {info:?}")));
             return res;
         };
         let mut seq = 0u8;
@@ -709,13 +712,13 @@ impl CaseSpace for EventVariations {
         res.transitions += 1;
         let rs = responses(&mut sim);
         let Some(r) = rs.last() else {
-            res.violation = Some(Violation::new("C03.V0", key, "class poll not answered".to_string()));
+            res.violation = Some(Violation::new(&format!("{}.V0", self.id), key, "class poll not answered".to_string()));
             return res;
         };
         let ms = match app::walk(&r.objects, false).map_err(|e| format!("{e:?}")).and_then(|h| decode_measurements(&h)) {
             Ok(m) => m,
             Err(e) => {
-                res.violation = Some(Violation::new("C03.V2", key, format!("response does not decode: {e}")));
+                res.violation = Some(Violation::new(&format!("{}.V2", self.id), key, format!("response does not decode: {e}")));
                 return res;
             }
         };
@@ -737,7 +740,7 @@ impl CaseSpace for EventVariations {
             && evs[0].time.map(|t| t.0 == 1000 + N).unwrap_or(true);
         if !ok {
             res.violation = Some(Violation::new(
-                "C03.V2",
+                &format!("{}.V2", self.id),
                 key,
                 format!("recorded: index 0 value {want_val} ONLINE time {} as g{group}v{var}; transmitted: {evs:?}", 1000 + N),
             ));
@@ -746,11 +749,11 @@ impl CaseSpace for EventVariations {
         sim.send(&app::confirm(r.seq(), false));
         let rel = cleared(&mut sim);
         if rel != vec![id] {
-            res.violation = Some(Violation::new("C03.V3", key, format!("confirmed response carried event id {id}; released {rel:?}")));
+            res.violation = Some(Violation::new(&format!("{}.V3", self.id), key, format!("confirmed response carried event id {id}; released {rel:?}")));
             return res;
         }
         if let Some(f) = sim.failure() {
-            res.violation = Some(Violation::new("C03.X0", f.clone(), f));
+            res.violation = Some(Violation::new(&format!("{}.X0", self.id), f.clone(), f));
         }
         res.nontrivial = true;
         res.model_states.push(index as u64);
